@@ -23,6 +23,7 @@ RULE = (
     "is checked for all g in B_2 / class representatives of B_3. Non-trivial: >=1 optimiser step applied, a non-filter leaf moved, "
     "g != e; distinct by (architecture, optimiser, loss, batch, epochs)."
 )
+RULE += " Every other history has a validation pass after each epoch; a fixed history trains a conventional net that is equivariant through GroupAverage(inference=True) only."
 RULE += " Also: fixed histories (pseudo-types through normalisation, scalar+vector, a pointwise network built on the 1x1 filter bank, a group-averaged conventional network, ONE TrainLoss object shared by a baseline run and the equivariant run), amplified-displacement oracle."
 ASSUMPTIONS = ["C07's tolerances", "bank ratio tolerance 1e-5", "one CPU device (pmap over a single device)"]
 ANCHORS = ["ginjax.ml.training:train_step", "ginjax.ml.training:train", "ginjax.ml.training:get_batches", "ginjax.ml.layers:ConvContract.individual_convolve"]
@@ -38,7 +39,7 @@ def cases(tier, seed):
     out = [{"D": 2 if i % 5 else 3, "opt": opts[i % 3], "loss": ["smse", "normalized"][(i // 3) % 2]} for i in range(n)]
     # fixed histories: a pseudo-scalar / pseudo-vector type carried through normalisation (parameterisations that are
     # equivariant at initialisation only would be moved off it by the optimiser)
-    for j, f in enumerate(FIXED if tier == "thorough" else FIXED[:6]):
+    for j, f in enumerate(FIXED if tier == "thorough" else FIXED[:6] + FIXED[-1:]):
         out.append({"D": 2, "opt": opts[j % 3], "loss": "smse", "cfg": f})
     return out
 
@@ -57,6 +58,9 @@ FIXED = [
     {"cls": "ResNet", "D": 2, "equivariant": True, "shared_stop": True, "kernel_size": 3, "in_sig": [[[0, 0], 1], [[1, 0], 1]], "out_sig": [[[1, 0], 1], [[0, 0], 1]], "depth": 2, "num_blocks": 1, "num_conv": 1, "num_downsamples": 1, "activation": "gelu", "norm": False, "preact": False, "bias": "auto", "bank_ks": [0, 1, 2], "torus": [True, True], "N": [4, 4], "keep_depth": True},
     {"cls": "UNet", "D": 2, "equivariant": True, "in_sig": [[[1, 0], 1], [[0, 1], 1]], "out_sig": [[[0, 1], 1], [[1, 0], 1]], "depth": 1, "num_blocks": 1, "num_conv": 1, "num_downsamples": 1, "activation": "tanh", "norm": True, "preact": False, "bias": "auto", "bank_ks": [0, 1, 2], "torus": [True, True], "N": [4, 4]},
     {"cls": "DilResNet", "D": 2, "equivariant": True, "in_sig": [[[0, 1], 1], [[1, 1], 1]], "out_sig": [[[1, 1], 1]], "depth": 1, "num_blocks": 1, "num_conv": 1, "num_downsamples": 1, "activation": "relu", "norm": True, "preact": False, "bias": "scalar", "bank_ks": [0, 1, 2], "torus": [False, False], "N": [5, 5]},
+    # a conventional network that is equivariant through group averaging in INFERENCE mode only (always_average=False,
+    # inference=True), trained with a validation pass after every epoch: what ml.train returns must be in the mode it was given
+    {"cls": "ResNet", "D": 2, "equivariant": False, "kernel_size": 3, "group_average": "inference", "validation": True, "in_sig": [[[0, 0], 1], [[1, 0], 1]], "out_sig": [[[1, 0], 1]], "depth": 2, "num_blocks": 1, "num_conv": 1, "num_downsamples": 1, "activation": "gelu", "norm": False, "preact": False, "bias": "auto", "bank_ks": [0, 1, 2], "torus": [True, True], "N": [4, 4], "keep_depth": True},
 ]
 
 
@@ -168,7 +172,8 @@ def run(case, ctx):
                 # an equivariant model of the other kind: a conventional network made equivariant by group averaging
                 import ginjax.models as models
 
-                model = models.GroupAverage(model, [np.asarray(g) for g in rgroup.hyperoctahedral(D)], always_average=True)
+                inf_only = case["cfg"]["group_average"] == "inference"
+                model = models.GroupAverage(model, [np.asarray(g) for g in rgroup.hyperoctahedral(D)], always_average=not inf_only, inference=inf_only)
             from_init = case["i"] % 2 == 0
             if not from_init:
                 model = mlgen.perturb(model, rng, 0.1)
@@ -177,6 +182,13 @@ def run(case, ctx):
             X = mlgen.random_multi(rng, in_sig, D, tuple(cfg["N"]), tuple(cfg["torus"]), lead=(L,))
             Y = mlgen.random_multi(rng, [(t, c) for t, c in out_sig if t in reach_out], D, tuple(cfg["N"]), tuple(cfg["torus"]), lead=(L,))
             lossf = ml.smse_loss if case["loss"] == "smse" else ml.normalized_smse_loss
+            # every other history (and the fixed ones that ask for it) has a validation pass after each epoch
+            val = {}
+            if case["i"] % 2 == 1 or cfg.get("validation"):
+                rv = np.random.default_rng([ctx["seed"], 9, case["i"], 5])  # own stream: the history's other draws do not move
+                Lv = B + int(rv.integers(0, 3))  # at least one full validation batch (floor(Lv/B) >= 1 is the loop's domain)
+                val = dict(validation_X=mlgen.random_multi(rv, in_sig, D, tuple(cfg["N"]), tuple(cfg["torus"]), lead=(Lv,)),
+                           validation_Y=mlgen.random_multi(rv, [(t, c) for t, c in out_sig if t in reach_out], D, tuple(cfg["N"]), tuple(cfg["torus"]), lead=(Lv,)))
 
             def map_and_loss(m, x, y, aux):
                 out = jax.vmap(lambda xi: m(xi)[0])(x)
@@ -193,7 +205,7 @@ def run(case, ctx):
                     ml.train(X, Y, map_and_loss, baseline, jax.random.PRNGKey(case["i"] + 7), cond, B, optax.adam(3e-2))
                     _mon.take()
                     steps0, moved0 = _mon.steps, _mon.moved
-                trained = ml.train(X, Y, map_and_loss, model, jax.random.PRNGKey(case["i"]), cond, B, opt)[0]
+                trained = ml.train(X, Y, map_and_loss, model, jax.random.PRNGKey(case["i"]), cond, B, opt, **val)[0]
                 if shared and jax.tree_util.tree_structure(trained) != jax.tree_util.tree_structure(model):
                     viols.append(viol("train-returned-foreign-model", f"ml.train was given an equivariant {cfg['cls']} and a stop condition that had been used before; it returned a model of another structure (the earlier run's); {key}"))
                 evals += 1
@@ -251,7 +263,7 @@ def run(case, ctx):
     nontrivial = steps >= 1 and moved >= 1
     return result(key, viols, nontrivial, evals=evals, noise=(res or {}).get("noise", 0.0) if "res" in dir() and res else 0.0,
                   obs={"train_steps_monitored": steps, "steps_with_moved_parameters": moved, "histories": 1},
-                  hist={"cls": cfg["cls"], "D": D, "opt": case["opt"], "loss": case["loss"], "norm": cfg["norm"], "epochs": epochs, "start": "init" if from_init else "perturbed", "extrapolated_model": extrap[0], "bank_ratio": [round(r, 5) for r in _mon.ratios[-1:]]},
+                  hist={"cls": cfg["cls"], "D": D, "opt": case["opt"], "loss": case["loss"], "norm": cfg["norm"], "epochs": epochs, "validation": bool(val) if "val" in dir() else False, "start": "init" if from_init else "perturbed", "extrapolated_model": extrap[0], "bank_ratio": [round(r, 5) for r in _mon.ratios[-1:]]},
                   sample={"cfg": key, "steps": steps, "bank_ratio_last": _mon.ratios[-1] if _mon.ratios else None})
 
 
